@@ -206,7 +206,8 @@ def start(argv):
         print(args.output_image, ": ", width, "x", height, "x", colors, sep="")
 
     # Grab VEF palette
-    pal = data[2:18]
+    # A palette register holds a six bit colour code.
+    pal = [color & 0x3F for color in data[2:18]]
 
     image_data = []
 
